@@ -44,7 +44,7 @@ Inductive dec :=
 | DFilterLoop               (* for !b.atEnd() { get filter; get options; append; if err||atEnd break } *)
 | DUnsubFilterLoop
 | DReasonCodes              (* make(len(data)-b.i); get each *)
-| DUndefinedData.           (* p.data = copy of data *)
+| DUndefinedData (copy : bool).  (* p.data = a copy of data (true) or data itself (false) *)
 
 (* ------------------------------------------------------------------ *)
 (* Field access that can dereference a nil will.                        *)
@@ -373,7 +373,7 @@ Fixpoint run_dec1 (d : dec) (s : dstate) {struct d} : res :=
       if Nat.leb (dpos s) (length (ddata s))
       then rcodes_loop (length (ddata s) - dpos s) [] s
       else RPanic
-  | DUndefinedData => Run (with_pkt (setf (M F_data) (VS (ddata s)) (dp s)) s)
+  | DUndefinedData _ => Run (with_pkt (setf (M F_data) (VS (ddata s)) (dp s)) s)
   end.
 
 Fixpoint run_dec (ds : list dec) (s : dstate) : res :=
@@ -614,7 +614,7 @@ Definition enc_of (k : kind) : option (list enc) :=
 
 Definition dec_of (k : kind) : list dec :=
   match k with
-  | KUndefined => [DUndefinedData]
+  | KUndefined => [DUndefinedData true]
   | KConnect => dec_connect
   | KConnAck => dec_connack
   | KPublish => dec_publish
